@@ -195,13 +195,19 @@ def CreatePatchesAgree [Add α] [Mul α] [NatCast α] (w : Quad α)
   | none, none => True
   | _, _ => False
 
-theorem pk_case [Cmp α] [Add α] [Sub α] [Mul α] [Div α] [ToBin α] [NatCast α]
-    (w : Quad α) (p : α) (junk1 : Nat → α) (junk2 : Nat → Nat → Nat → α)
-    (size : Nat → α) (pn : Nat → Nat) (rs : Nat → α) (xi yi : Nat) (hne : xi ≠ yi) (G : Option (Grid α))
+/-- from the loop's specification to agreement with the model grid -/
+theorem pk_agree_of_spec [Add α] [Mul α] [NatCast α] [Cmp α]
+    (w : Quad α) (junk2 : Nat → Nat → Nat → α) (pn : Nat → Nat) (rs : Nat → α) (xi yi : Nat) (hne : xi ≠ yi)
+    (r : Option (Nat × (Nat → Nat → Nat → α)))
+    (hspec : ∃ A, r = some (pn xi * pn yi, A) ∧
+      (∀ ix iy, ix < pn xi → iy < pn yi →
+        A (ix * pn yi + iy) = pkPoints w xi yi (minOver (fun v => w v xi) 4) (minOver (fun v => w v yi) 4) rs ix iy) ∧
+      (∀ k, pn xi * pn yi ≤ k → A k = junk2 k))
+    (G : Option (Grid α))
     (hG : G = some { nx := pn xi, ny := pn yi, xIdx := xi, yIdx := yi, xMin := minOver (fun v => w v xi) 4,
                      yMin := minOver (fun v => w v yi) 4, rx := rs xi, ry := rs yi }) :
-    CreatePatchesAgree w junk2 (createPatches_tail w 4 3 p junk1 junk2 size pn rs xi yi) G := by
-  obtain ⟨A, hA, hmid, hhi⟩ := createPatches_tail_spec w 4 3 p junk1 junk2 size pn rs xi yi
+    CreatePatchesAgree w junk2 r G := by
+  obtain ⟨A, hA, hmid, hhi⟩ := hspec
   rw [hA, hG]
   unfold CreatePatchesAgree totalPatches
   refine ⟨rfl, ?_, hhi⟩
@@ -221,6 +227,14 @@ theorem pk_case [Cmp α] [Add α] [Sub α] [Mul α] [Div α] [ToBin α] [NatCast
   unfold patchOf
   exact pkPoints_eq w ⟨pn xi, pn yi, xi, yi, minOver (fun v => w v xi) 4, minOver (fun v => w v yi) 4, rs xi, rs yi⟩
     rs _ _ v a hne hv rfl rfl
+
+theorem pk_case [Cmp α] [Add α] [Sub α] [Mul α] [Div α] [ToBin α] [NatCast α]
+    (w : Quad α) (p : α) (junk1 : Nat → α) (junk2 : Nat → Nat → Nat → α)
+    (size : Nat → α) (pn : Nat → Nat) (rs : Nat → α) (xi yi : Nat) (hne : xi ≠ yi) (G : Option (Grid α))
+    (hG : G = some { nx := pn xi, ny := pn yi, xIdx := xi, yIdx := yi, xMin := minOver (fun v => w v xi) 4,
+                     yMin := minOver (fun v => w v yi) 4, rx := rs xi, ry := rs yi }) :
+    CreatePatchesAgree w junk2 (createPatches_tail w 4 3 p junk1 junk2 size pn rs xi yi) G :=
+  pk_agree_of_spec w junk2 pn rs xi yi hne _ (createPatches_tail_spec w 4 3 p junk1 junk2 size pn rs xi yi) G hG
 
 theorem createPatches_eq [Cmp α] [Add α] [Sub α] [Mul α] [Div α] [ToBin α] [NatCast α]
     (w : Quad α) (p : α) (junk1 : Nat → α) (junk2 : Nat → Nat → Nat → α) :
@@ -248,5 +262,81 @@ theorem createPatches_eq [Cmp α] [Add α] [Sub α] [Mul α] [Div α] [ToBin α]
       · simp only [h0, h1, h2, if_false]
         unfold grid planeAxes patchNum CreatePatchesAgree
         simp [h0, h1, h2]
+
+/-! ### the copy of the loop in `PatchesKang.__init__` -/
+
+theorem patchesKangInit_tail_spec [Cmp α] [Add α] [Sub α] [Mul α] [Div α] [ToBin α] [NatCast α]
+    (w : Quad α) (n0 n1 : Nat) (p : α) (junk2 : Nat → Nat → Nat → α)
+    (mn mx size : Nat → α) (pn : Nat → Nat) (rs : Nat → α) (xi yi : Nat) :
+    ∃ A, patchesKangInit_tail w n0 n1 p junk2 mn mx size pn rs xi yi = some (pn xi * pn yi, A) ∧
+      (∀ ix iy, ix < pn xi → iy < pn yi →
+        A (ix * pn yi + iy) = pkPoints w xi yi (minOver (fun v => w v xi) n0) (minOver (fun v => w v yi) n0) rs ix iy) ∧
+      (∀ k, pn xi * pn yi ≤ k → A k = junk2 k) := by
+  have h := pk_fill3 (pn xi) (pn yi)
+    (fun ix iy => pkPoints w xi yi (minOver (fun v => w v xi) n0) (minOver (fun v => w v yi) n0) rs ix iy) junk2
+  unfold pkPoints at h
+  unfold patchesKangInit_tail pkPoints
+  simp only [Prod.mk.eta] at h ⊢
+  rw [h.1]
+  exact ⟨_, rfl, h.2.1, h.2.2⟩
+
+/-- `PatchesKang.__init__` (translated) agrees with the model grid exactly as `_create_patches` does -/
+theorem patchesKangInit_eq [Cmp α] [Add α] [Sub α] [Mul α] [Div α] [ToBin α] [NatCast α]
+    (w : Quad α) (p : α) (junk2 : Nat → Nat → Nat → α) :
+    CreatePatchesAgree w junk2 (patchesKangInit w 4 3 p junk2) (grid w p) := by
+  unfold patchesKangInit
+  simp only []
+  by_cases h0 : ToBin.floorNat ((maxOver (fun v_ => w v_ 0) 4 - minOver (fun v_ => w v_ 0) 4) / p) = 0
+  · simp only [h0, if_true]
+    apply pk_agree_of_spec w junk2 _ _ 1 2 (by decide) _ (patchesKangInit_tail_spec w 4 3 p junk2 _ _ _ _ _ 1 2)
+    unfold grid planeAxes patchNum extent
+    simp [h0]
+  · by_cases h1 : ToBin.floorNat ((maxOver (fun v_ => w v_ 1) 4 - minOver (fun v_ => w v_ 1) 4) / p) = 0
+    · simp only [h0, h1, if_true, if_false]
+      apply pk_agree_of_spec w junk2 _ _ 0 2 (by decide) _ (patchesKangInit_tail_spec w 4 3 p junk2 _ _ _ _ _ 0 2)
+      unfold grid planeAxes patchNum extent
+      simp [h0, h1]
+    · by_cases h2 : ToBin.floorNat ((maxOver (fun v_ => w v_ 2) 4 - minOver (fun v_ => w v_ 2) 4) / p) = 0
+      · simp only [h0, h1, h2, if_true, if_false]
+        apply pk_agree_of_spec w junk2 _ _ 0 1 (by decide) _ (patchesKangInit_tail_spec w 4 3 p junk2 _ _ _ _ _ 0 1)
+        unfold grid planeAxes patchNum extent
+        simp [h0, h1, h2]
+      · simp only [h0, h1, h2, if_false]
+        unfold grid planeAxes patchNum extent CreatePatchesAgree
+        simp [h0, h1, h2]
+
+/-- **Both engines tile alike**: the translated `_create_patches` and the translated loop of
+    `PatchesKang.__init__` return the same count and the same patches, for every wall, patch size, scalar type
+    and whatever the buffers held. -/
+theorem engines_tile_alike [Cmp α] [Add α] [Sub α] [Mul α] [Div α] [ToBin α] [NatCast α]
+    (w : Quad α) (p : α) (junk1 : Nat → α) (junk2 junk3 : Nat → Nat → Nat → α) :
+    match createPatches w 4 3 p junk1 junk2, patchesKangInit w 4 3 p junk3 with
+    | some (n, A), some (n', A') => n = n' ∧ ∀ k v a, k < n → v < 4 → A k v a = A' k v a
+    | none, none => True
+    | _, _ => False := by
+  have h1 := createPatches_eq w p junk1 junk2
+  have h2 := patchesKangInit_eq w p junk3
+  unfold CreatePatchesAgree at h1 h2
+  cases hg : grid w p with
+  | none =>
+    rw [hg] at h1 h2
+    cases hc : createPatches w 4 3 p junk1 junk2 <;> cases hk : patchesKangInit w 4 3 p junk3 <;>
+      simp [hc, hk] at h1 h2 ⊢
+  | some g =>
+    rw [hg] at h1 h2
+    cases hc : createPatches w 4 3 p junk1 junk2 with
+    | none => simp [hc] at h1
+    | some r =>
+      cases hk : patchesKangInit w 4 3 p junk3 with
+      | none => simp [hk] at h2
+      | some r' =>
+        obtain ⟨n, A⟩ := r
+        obtain ⟨n', A'⟩ := r'
+        rw [hc] at h1
+        rw [hk] at h2
+        simp only at h1 h2 ⊢
+        refine ⟨h1.1.trans h2.1.symm, ?_⟩
+        intro k v a hk' hv
+        rw [h1.2.1 k v a hk' hv, h2.2.1 k v a (by rw [h2.1, ← h1.1]; exact hk') hv]
 
 end Sparrow
